@@ -29,7 +29,7 @@ Qed.
 
 (* what export writes holds no tab / VT / FF: no piece is marked *)
 Lemma marked_blanks_eol (t : token) k (e : eol) (r : list atom) : marked T t (repeat ABlank k ++ eol_atoms T e ++ r) = false.
-Proof. destruct k; [destruct e|]; reflexivity. Qed.
+Proof. destruct k; [destruct e; [|cbn; destruct (is_word T t)]|]; reflexivity. Qed.
 
 Lemma lex_join (t : token) (l : line) k (e : eol) (r : list atom) :
   lex_aux false 0 (join_toks T (t :: l) ++ repeat ABlank k ++ eol_atoms T e ++ r)
@@ -84,7 +84,7 @@ Lemma after_ows_ws_eol w (e : eol) (r : list atom) : after_ows T (ws_atoms T w +
 Proof. induction w as [|[|] w IH]; [destruct e; reflexivity|reflexivity|]; cbn; exact IH. Qed.
 Lemma marked_ws_eol (t : token) w (e : eol) (r : list atom) : marked T t (ws_atoms T w ++ eol_atoms T e ++ r) = false.
 Proof.
-  destruct w as [|[|] w]; [destruct e; reflexivity|reflexivity|]. cbn [ws_atoms map app marked].
+  destruct w as [|[|] w]; [destruct e; [|cbn; destruct (is_word T t)]; reflexivity|reflexivity|]. cbn [ws_atoms map app marked].
   destruct (is_word T t); [apply has_tok_ws_eol|apply after_ows_ws_eol].
 Qed.
 
@@ -150,6 +150,30 @@ Proof.
   rewrite A, H. destruct (is_word T t); cbn [app]; rewrite lex_ows_skip; cbn [C16Text.lex_aux app]; reflexivity.
 Qed.
 
+(* CARRIAGE RETURNS (import_data opens the file with newline="\n", /repo a0b5a3f): a CR anywhere in the file — before the LF
+   of a CR LF line end, alone (old Mac line ends), among the padding, between two texts — is read exactly like a tab:
+   replacing every CR by a tab leaves the token stream unchanged; in particular a lone CR does not end a line *)
+Lemma has_tok_cr (r : list atom) : has_tok T (map (cr_ows T) r) = has_tok T r.
+Proof. induction r as [|[| | |t|] r IH]; cbn; auto. Qed.
+Lemma after_ows_cr (r : list atom) : after_ows T (map (cr_ows T) r) = after_ows T r.
+Proof. induction r as [|[| | |t|] r IH]; cbn; auto. Qed.
+Lemma marked_cr (t : token) (r : list atom) : marked T t (map (cr_ows T) r) = marked T t r.
+Proof. destruct r as [|[| | |u|] r]; cbn; auto; now rewrite has_tok_cr, after_ows_cr. Qed.
+Theorem lex_aux_cr_ows st p (a : list atom) : lex_aux st p (map (cr_ows T) a) = lex_aux st p a.
+Proof.
+  revert st p; induction a as [|[| | |t|] a IH]; intros st p; cbn [map cr_ows C16Text.lex_aux]; auto.
+  - now rewrite IH.
+  - now rewrite marked_cr, IH.
+Qed.
+Corollary lex_cr_ows (a : list atom) : lex (map (cr_ows T) a) = lex a.
+Proof. apply lex_aux_cr_ows. Qed.
+Corollary import_text_cr_ows b (a : list atom) :
+  import_text D T d0 parse ofZ b (map (cr_ows T) a) = import_text D T d0 parse ofZ b a.
+Proof. unfold import_text. now rewrite lex_cr_ows. Qed.
+(* a file whose lines end with lone CRs is ONE line: nothing but the type word is ever found on its first line *)
+Theorem lex_lone_cr st p (r : list atom) : lex_aux st p (ACR :: r) = lex_aux st p r.
+Proof. reflexivity. Qed.
+
 (* import_data on the characters = the line-level import on the lines, whatever the padding and the line ends *)
 Theorem import_text_render b (f : list (line * style)) :
   import_text D T d0 parse ofZ b (render T f) = import_lines D T d0 parse ofZ b (map fst f).
@@ -173,6 +197,15 @@ Theorem roundtrip_text_ws (parse_print : forall v : D, parse (print v) = v) b (o
 Proof.
   intros W L H. unfold import_text. rewrite lex_render_ws, map_fst_combine by auto.
   now apply (roundtrip_lines D T d0 print parse ofZ parse_print).
+Qed.
+(* the same with CARRIAGE RETURNS among the padding (CR LF line ends, several CRs before the LF, CRs before the first text of a
+   line ...): any file that becomes a padded rendering of the lines export writes once its CRs are read as tabs *)
+Theorem roundtrip_text_cr (parse_print : forall v : D, parse (print v) = v) b (o : obj D) (sty : list wstyle) (a : list atom) :
+  wf_obj D o -> wf_lines D o -> length sty = length (export_lines D T d0 print b o) ->
+  map (cr_ows T) a = render_ws T (combine (export_lines D T d0 print b o) sty) ->
+  import_text D T d0 parse ofZ b a = Some o.
+Proof.
+  intros W L H E. rewrite <- import_text_cr_ows, E. now apply roundtrip_text_ws.
 Qed.
 Corollary roundtrip_text_plain (parse_print : forall v : D, parse (print v) = v) b (o : obj D) :
   wf_obj D o -> wf_lines D o ->
